@@ -83,6 +83,7 @@ type l2World struct {
 	histEntriesAtBegin uint32
 	histWritten map[int64]bool
 	noWrap    bool
+	l1Rcpts   []string // valid L1 recipient strings (set by the two-chain world)
 	lastRes   *abci.ResponseFinalizeBlock
 	lastFired []bool
 	lastCalls [][]string
@@ -123,7 +124,10 @@ func mkValidator(label string, power int64) opchildtypes.Validator {
 	return v
 }
 
-func newL2World(r *core.Run, p *l2Profile) *l2World {
+func newL2World(r *core.Run, p *l2Profile) *l2World { return newL2WorldOpt(r, p, 0, nil) }
+
+// newL2WorldOpt: fixedBridge / bases are set by the two-chain world so that both chains agree.
+func newL2WorldOpt(r *core.Run, p *l2Profile, fixedBridge uint64, bases []string) *l2World {
 	w := &l2World{r: r, p: p, db: dbm.NewMemDB(), deps: map[uint64]*l1Deposit{}, prevDig: map[string][32]byte{}, succ: map[string]int{},
 		planAt: map[uint64]*node.PlanReg{}, hist: map[int64]map[string]int64{}, planKey: map[uint64]string{}, planOp: map[uint64]string{}, histWritten: map[int64]bool{}}
 	authority := authtypes.NewModuleAddress(opchildtypes.ModuleName).String()
@@ -131,6 +135,11 @@ func newL2World(r *core.Run, p *l2Profile) *l2World {
 	w.bridgeID = 1 + uint64(r.Intn(3))
 	nb := 1 + r.Intn(3)
 	w.bases = []string{"uinit", "uusdc", "ibc/27394FB092D2ECCD56123C74F36E4C1F926001CEADA9CA97EA622B25F41E5EB2"}[:nb]
+	if fixedBridge != 0 {
+		w.bridgeID = fixedBridge
+		w.bases = bases
+		nb = len(bases)
+	}
 	w.now = simEpoch.Add(time.Duration(r.Intn(1000)) * time.Millisecond)
 	bal := map[string]sdk.Coins{}
 	nk := 2 + r.Intn(2)
@@ -234,7 +243,10 @@ func (w *l2World) makeHook(spec *modelL2, to string, dep sdk.Coin) []byte {
 			lbl = k
 		}
 	}
-	class := []string{"good", "good", "good", "failmsg", "badsig", "staleseq", "hungry", "garbage", "unrouted"}[w.r.Intn(9)]
+	class := []string{"good", "good", "good", "failmsg", "badsig", "staleseq", "hungry", "garbage", "unrouted", "wdhook"}[w.r.Intn(10)]
+	if class == "wdhook" && w.avoidKnown && core.Known.Listed(w.p.Prop, "hook-withdrawal-not-announced") {
+		class = "good"
+	}
 	hs := &hookSpec{Class: class, Signer: lbl, Seq: spec.AcctSeq[lbl]}
 	signer := node.KeyAddr(lbl)
 	priv := node.Key(lbl)
@@ -282,6 +294,25 @@ func (w *l2World) makeHook(spec *modelL2, to string, dep sdk.Coin) []byte {
 			mkSend(big.NewInt(1), "umin", rcpt)
 		}
 		gas = 500_000_000
+	case "wdhook":
+		// "deposit and withdraw": the signer withdraws part of a bridged balance inside the hook
+		denom := dep.Denom
+		amt := big.NewInt(1)
+		if dep.IsPositive() && signer.String() == to {
+			amt = new(big.Int).Div(dep.Amount.BigInt(), big.NewInt(int64(1+w.r.Intn(3))))
+			if amt.Sign() == 0 {
+				amt = big.NewInt(1)
+			}
+		}
+		if !amt.IsUint64() {
+			amt = big.NewInt(1000)
+		}
+		wm := &opchildtypes.MsgInitiateTokenWithdrawal{Sender: signer.String(), To: fmt.Sprintf("l1rcpt%d", w.r.Intn(3)), Amount: sdk.Coin{Denom: denom, Amount: math.NewIntFromBigInt(amt)}}
+		if w.l1Rcpts != nil {
+			wm.To = w.l1Rcpts[w.r.Intn(len(w.l1Rcpts))]
+		}
+		hs.Withdraw = wm
+		msgs = append(msgs, wm)
 	case "unrouted":
 		// a message type no handler is registered for on the L2
 		msgs = append(msgs, &ophosttypes.MsgRecordBatch{Submitter: signer.String(), BridgeId: 1, BatchBytes: []byte{1}})
@@ -730,7 +761,7 @@ func (w *l2World) execBlock(bc blockCtx, txs []l2Pending, crash string) *core.Vi
 	for i := range txs {
 		raw[i] = txs[i].Bytes
 	}
-	r.Step("block", "h=%d t=+%s txs=%d crash=%q", bc.Height, T.Sub(simEpoch), len(txs), crash)
+	r.Step("block", "L2 h=%d t=+%s txs=%d crash=%q", bc.Height, T.Sub(simEpoch), len(txs), crash)
 	if crash == "before-finalize" {
 		w.restart(crash)
 	}
